@@ -908,7 +908,7 @@ def parse_scalar_obs(P: str) -> list[Ob]:
     obs.append(Ob(f"{P}.P.read.comments", "P", "Parser.parse_document on // lead / KEY::<scalar> // trail: the comment tokens' texts become the assignment's leading_comments / trailing_comment, the value is the token's value", [pd, ps, pv], make(lambda ctx: [f"with_comments({k!r})" for k in PS.KINDS] + ["trailing_comment_after_multiline_list('IDENTIFIER', 'NUMBER')", "trailing_comment_after_multiline_list('STRING', 'IDENTIFIER')"])))
     obs.append(Ob(f"{P}.P.read.expression", "P", "Parser.parse_section on KEY::A op B [op C] for each of the seven expression operators: the value is the operand and operator token texts concatenated in order", [ps, pv, "octave_mcp.core.parser:Parser.parse_flow_expression"], make(lambda ctx: [f"expression(({o!r},))" for o in PS.OPS] + ["expression(('FLOW', 'SYNTHESIS'))", "expression(('CONSTRAINT', 'ALTERNATIVE'))", "expression(('AT', 'FLOW'))"])))
     obs.append(Ob(f"{P}.P.read.section", "P", "Parser.parse_section on §7::NAME / indented KEY::<scalar> returns Section('7', NAME, [Assignment]); NAME[→§T]: / KEY::<scalar> returns Block(NAME, target T, [Assignment])", [ps, "octave_mcp.core.parser:Parser.parse_section_marker", pv], make(lambda ctx: [f"section_marker({k!r})" for k in PS.KINDS] + [f"block_target({k!r})" for k in PS.KINDS])))
-    obs.append(Ob(f"{P}.P.read.parent", "P", "which parent a field belongs to: a block / a §-section with two children and a column-0 comment line between them (a field commented out at the margin) - the second child, indented like the first or deeper (both widths symbolic), stays a child of the container and the comment leads it", [ps, "octave_mcp.core.parser:Parser.parse_section_marker", pv], make(lambda ctx: [f"children_around_comment({h!r}, {k!r})" for h in ("block", "section") for k in (PS.KINDS if ctx.thorough else ("IDENTIFIER", "NUMBER", "STRING"))])))
+    obs.append(Ob(f"{P}.P.read.parent", "P", "which parent a field belongs to: a block / a §-section with two children and a comment line between them at column 0 or indented LESS than the children (a field commented out at the margin) - the second child, indented like the first or deeper (both widths symbolic), stays a child of the container and the comment leads it", [ps, "octave_mcp.core.parser:Parser.parse_section_marker", pv], make(lambda ctx: [f"children_around_comment({h!r}, {k!r}, {sh!r})" for h in ("block", "section") for sh in (False, True) for k in (PS.KINDS if ctx.thorough else ("IDENTIFIER", "NUMBER"))])))
     obs.append(Ob(f"{P}.P.read.document", "P", "Parser.parse_document on ===DOC=== / KEY::<scalar> / ===END=== returns Document(DOC, [Assignment(key text, the scalar token's value)])", [pd, ps, pv], make(lambda ctx: [f"document({k!r})" for k in PS.KINDS])))
     return obs
 
